@@ -279,7 +279,11 @@ def run(ctx: Ctx):
             lines += [f"xout {n} 0", f"xout {n} 1"]
             if info[n]["has_prog"]:
                 lines += [f"run {n} {ctx.seed * 3 + k} {F.B}" for k in range(2)]
-        outs = ctx.run_driver("C10", lines, timeout=3000) if lines else []
+        okr, outr = ctx.lake_build(["E3nnVerif.Generated.RTP.Registry"], timeout=3000)
+        ctx.obligation("build:Generated.RTP.Registry", okr, outr[-2000:])
+        outs = ctx.run_driver("C10", lines, timeout=3000) if lines and okr else []
+        if not okr:
+            lines = []
         assert len(outs) == len(lines), (len(outs), len(lines))
         worst = 0.0
         for line, res in zip(lines, outs):
